@@ -1,5 +1,5 @@
 (** C08 - Auto-remediation never changes the outcome. *)
-From Hermes Require Import Model.Objects Model.Client Proofs.Objects Proofs.Client.
+From Hermes Require Import Model.Objects Model.Client Proofs.Objects Proofs.Client Proofs.Remediation.
 
 (** merging two queued 'modified' events yields an event whose effect equals applying
     the two in order - for all attribute maps (the second being a well-formed diff
@@ -13,6 +13,49 @@ Print Assumptions C08_merge_modified_modified.
 (** 'added' + 'modified' = 'added' of the final object *)
 Theorem C08_merge_added_modified : forall a l, apply_to_added a l = apply_mod l a.
 Proof. exact merge_added_modified_effect. Qed.
+
+(** every pair of queued events of one object, every policy: what [_mergeEvents] leaves in the
+    queue has the effect of the two events applied in order. [o] is the object on the target
+    before the pair (None = absent); the pair is consistent with that state; the caches handed
+    to the merge hold [o] and the expected final object. Both entries stay (MNo), both leave
+    because nothing is to be done (MBoth), or one event replaces them (MMerged). *)
+Theorem C08_merge_pair_effect : forall pol p l (o : option obj),
+  match ce_kind p, o with
+  | KAdded _, None | KModified _, Some _ | KRemoved, Some _ => True
+  | _, _ => False end ->
+  match ce_kind l, ev_effect (ce_kind p) o with
+  | KAdded _, None | KModified _, Some _ | KRemoved, Some _ => True
+  | _, _ => False end ->
+  (forall dp, ce_kind p = KModified dp -> forall oo, o = Some oo -> wf_diff dp oo) ->
+  (forall dl, ce_kind l = KModified dl -> forall oo, ev_effect (ce_kind p) o = Some oo -> wf_diff dl oo) ->
+  let final := ev_effect (ce_kind l) (ev_effect (ce_kind p) o) in
+  match merge_events pol (Some p) (Some l) o final with
+  | MNo => True
+  | MBoth => final = o
+  | MMerged (Some e) => ev_effect (ce_kind e) o = final
+  | MMerged None | MBug => False
+  end.
+Proof. exact merge_effect. Qed.
+Print Assumptions C08_merge_pair_effect.
+
+(** 'removed' + 'added' under maximum: the 'modified' that turns the object still on the target
+    into the re-added one, never empty; cancelled only when the two objects are equal *)
+Theorem C08_merge_removed_added : forall p l a co no,
+  ce_kind p = KRemoved -> ce_kind l = KAdded a ->
+  match merge_events RMaximum (Some p) (Some l) (Some co) (Some no) with
+  | MMerged (Some e) => exists d, ce_kind e = KModified d /\ md_empty d = false /\ apply_mod d co = no
+  | MBoth => co = no
+  | _ => False
+  end.
+Proof. exact merge_removed_added. Qed.
+(** an object that comes back with one attribute less is not a cancellation *)
+Example C08_readd_with_fewer_attributes :
+  let co : obj := list_to_map [(1%N, VInt 1); (2%N, VInt 1)] in
+  let no : obj := list_to_map [(1%N, VInt 1)] in
+  match merge_events RMaximum (Some (CEv 1 1 KRemoved 0 0 false)) (Some (CEv 1 1 (KAdded no) 0 0 false)) (Some co) (Some no) with
+  | MMerged (Some e) => match ce_kind e with KModified d => map_to_list (apply_mod d co) = map_to_list no | _ => False end
+  | _ => False end.
+Proof. vm_compute. reflexivity. Qed.
 
 (** an event already partially applied to the target is never merged *)
 Theorem C08_partial_never_merged : forall c st q num last prev rest,
